@@ -111,7 +111,7 @@ class IfNode(Node):
 
         for alternative in self.alternatives:
             if await alternative.expression.evaluate_async(context):
-                return await alternative.render_async(context, buffer)
+                return await alternative.block.render_async(context, buffer)
 
         if self.default:
             return await self.default.render_async(context, buffer)
